@@ -327,6 +327,11 @@ impl ArrayPartialDecoderTraits for ShardingPartialDecoder {
                         try_for_each,
                         decode_inner_chunk_subset_into_slice
                     )?;
+                    #[cfg(zarrs_verif)]
+                    crate::storage::verif_hooks::emit(
+                        "view.publish",
+                        &[out_array_subset.as_ptr() as u64, out_array_subset.len() as u64],
+                    );
                     out.push(ArrayBytes::from(out_array_subset));
                 }
             }
